@@ -265,6 +265,8 @@ def s_alts(s):
     finding hop-limit-left-by-refused-proxy; the driver no longer emits such results since the defect is fixed)"""
     out = []
     for a in s.split(" ", 1)[1].split(" || "):
+        if "msg=" not in a:
+            continue                  # `norun …` / `null` (C04 D17): no admissible abstract result
         tag = a.startswith("leftover ")
         out.append((tag, a.split("msg=", 1)[1].rsplit(" bytes=", 1)[0], a.rsplit(" bytes=", 1)[1]))
     return out
